@@ -1202,3 +1202,41 @@ def iterate_while_removing(P, R, rule, units):
                         R.ob(rule, not bad, s, 'in %s the walk does not touch %s again after %s(...) may have disposed the element it points at%s' % (f.name, v, c or 'the call', (' (read at %s)' % bad[0].loc) if bad else ''),
                              key='iter-remove:%s:%s' % (f.name, v))
     return n
+
+
+# a string parameter kept in a longer-lived object by design: (function, member) -> reason.  Confirmed by reading; frozen.
+ESCAPE_OK = {
+    ('module_constructor', 'owner'): 'the module name handed to a constructor lives as long as the module registry entry',
+    ('conf_register_string', 'def_value'): 'registered defaults are string literals of the registering module (API contract)',
+    ('conf_register_inaddr', 'def_hostname'): 'registered defaults are string literals of the registering module (API contract)',
+    ('conf_register_inaddr', 'def_service'): 'registered defaults are string literals of the registering module (API contract)',
+    ('conf_parse_get_child', 'name'): 'the caller hands over a freshly allocated name (ownership transfer; freed on the duplicate path)',
+}
+
+
+def param_string_escapes(P, R, rule, units):
+    """A text passed in by the caller does not outlive the call inside a heap object unless it is copied: a `char *`
+    parameter stored as it is into a member reached through a pointer (a registry entry keeps the caller's buffer: a
+    parse buffer that is freed, a module image that is unmapped) is accepted only for the frozen, reasoned cases.
+    Registries copy their keys (into the node's own tail, or with xstrdup)."""
+    n = 0
+    for f in P.fns.values():
+        if f.unit not in units:
+            continue
+        ps = {p['name'] for p in f.param_info if 'char' in p.get('t', '') and '*' in p.get('t', '')}
+        if not ps:
+            continue
+        for s in f.stores():
+            ev = s.ev
+            l = ev.get('lhs') or {}
+            if not (ev['k'] == 'store' and ev.get('op') == '=' and l.get('k') == 'mem' and is_var(ev.get('rhs')) and ev['rhs']['name'] in ps):
+                continue
+            rv = root_var(l)
+            if rv is None or not rv.get('t', '').endswith('*') and rv.get('sc') in ('local',):
+                continue        # a stack record goes out of scope with the call
+            why = ESCAPE_OK.get((f.name, l.get('field')))
+            n += 1
+            R.ob(rule, bool(why), s, '%s keeps its caller\'s text %s in %s only by a reasoned exception%s' % (f.name, ev['rhs']['name'], sx(l), (': ' + why) if why else ' (none: the text must be copied)'),
+                 key='escape:%s:%s' % (f.name, l.get('field')), nontrivial=not why)
+    R.ob(rule, True, None, 'scanned %s for caller-owned texts stored into heap objects' % ', '.join(sorted(units)), key='escape-scan', nontrivial=False)
+    return n
